@@ -213,8 +213,9 @@ def float_functions():
 class OpaqueHole(Hole):
     """Text whose content is irrelevant to the obligation (messages, rendered values)."""
 
-    def __init__(self, what=None):
+    def __init__(self, what=None, prov=frozenset()):
         self.what = what
+        self.prov = frozenset(prov)      # provenance: tags of the opaque texts this text was derived from
 
     def __repr__(self):
         return f"<text {self.what!r}>"
@@ -396,11 +397,32 @@ class Opaque:
     """A value about which nothing is known (havocked text/list).  Using it in arithmetic or control
     flow is Unsupported."""
 
-    def __init__(self, what=''):
+    def __init__(self, what='', prov=frozenset()):
         self.what = what
+        self.prov = frozenset(prov)
 
     def __repr__(self):
         return f"<opaque {self.what}>"
+
+
+def prov_of(*values):
+    """union of the provenance tags of opaque texts occurring in the values (taint tracking for text that is
+    otherwise not interpreted: which container's instructions a piece of text came from)"""
+    out = set()
+    todo = list(values)
+    while todo:
+        v = todo.pop()
+        if isinstance(v, SegStr):
+            for q in v.parts:
+                if isinstance(q, OpaqueHole):
+                    out |= q.prov
+        elif isinstance(v, (Opaque, OpaqueHole)):
+            out |= v.prov
+        elif isinstance(v, IteV):
+            todo += [v.a, v.b]
+        elif isinstance(v, (list, tuple)):
+            todo += list(v)
+    return frozenset(out)
 
 
 class Undefined:
